@@ -8,7 +8,7 @@ Require Import Hdl21.Base.PyInt Hdl21.Spec.PySlice Hdl21.Model.Slice Hdl21.Model
                Hdl21.Proofs.SliceProofs Hdl21.Proofs.ResolveProofs Hdl21.Proofs.ArraysProofs Hdl21.Proofs.ExportProofs
                Hdl21.Proofs.C01EProofsGraph Hdl21.Proofs.C01EProofsBase Hdl21.Proofs.C01EProofsSim Hdl21.Proofs.C01EProofsWfs
                Hdl21.Proofs.C01EProofsPass Hdl21.Proofs.C01EProofsNames Hdl21.Proofs.C01EProofsSlices Hdl21.Proofs.C01EProofsArrays
-               Hdl21.Proofs.C01EProofsDfs.
+               Hdl21.Proofs.C01EProofsDfs Hdl21.Proofs.PkgWfProofs.
 Open Scope Z_scope.
 
 (* ------------------------------------------------------------------------------------------ one connection *)
@@ -247,3 +247,399 @@ Proof.
   exists st, pms. repeat (split; [assumption|]). unfold export_model. rewrite Hd. cbn [bind]. rewrite Hp. reflexivity.
 Qed.
 End ExportPass.
+
+(* ------------------------------------------------------------------------------------------ reading the package back *)
+Lemma find_pmod_spec ms nm : forall k0 a pm, NoDup (map pm_name ms) -> nth_error ms a = Some pm -> pm_name pm = nm ->
+  find_pmod ms nm k0 = Some (k0 + a)%nat.
+Proof.
+  induction ms as [|m ms IH]; intros k0 a pm Hnd Ha Hn; [destruct a; discriminate|]. cbn [find_pmod].
+  cbn [map] in Hnd. inversion Hnd as [|? ? Hm Hnd']; subst.
+  destruct a as [|a]; cbn [nth_error] in Ha.
+  - inversion Ha; subst. rewrite String.eqb_refl. f_equal. lia.
+  - destruct (String.eqb (pm_name m) (pm_name pm)) eqn:E.
+    + exfalso. apply String.eqb_eq in E. apply Hm. rewrite E. apply in_map. eapply nth_error_In. exact Ha.
+    + rewrite (IH (S k0) a pm Hnd' Ha eq_refl). f_equal. lia.
+Qed.
+
+Lemma index_of_ge s sigs : forall k0 idx, index_of s sigs k0 = Some idx -> (k0 <= idx)%N.
+Proof.
+  induction sigs as [|[s' w'] sigs IH]; intros k0 idx H; cbn [index_of] in H; [discriminate|].
+  destruct (String.eqb s s'); [inversion H; lia|]. apply IH in H. lia.
+Qed.
+
+Lemma index_of_some s sigs : forall k0 w, assoc s sigs = Some w ->
+  exists idx, index_of s sigs k0 = Some idx /\ assocN idx (number_leaves sigs k0) = Some (LSig s).
+Proof.
+  induction sigs as [|[s' w'] sigs IH]; intros k0 w H; cbn [assoc index_of number_leaves] in *; [discriminate|].
+  destruct (String.eqb s s') eqn:E.
+  - apply String.eqb_eq in E. subst s'. exists k0. split; [reflexivity|]. cbn [assocN]. rewrite N.eqb_refl. reflexivity.
+  - destruct (IH (k0 + 1)%N w H) as [idx [Hi Hl]]. exists idx. split; [exact Hi|]. cbn [assocN].
+    pose proof (index_of_ge _ _ _ _ Hi). assert (N.eqb idx k0 = false) as -> by (apply N.eqb_neq; lia). exact Hl.
+Qed.
+
+Definition bit_readback (sigs : list (name * Z)) (sb : sbit) (b : bit) : Prop :=
+  snd b = snd sb /\ assocN (fst b) (number_leaves sigs 0%N) = Some (LSig (fst sb)).
+
+Lemma xbits_onebit id w j : 0 <= j < w -> xbits (XSlice (XSig id w) (Idx j)) = Ok [(id, j)].
+Proof.
+  intros Hj. cbn [xbits]. destruct (w <? 1) eqn:E; [lia|]. cbn [bind]. rewrite sig_bits_len by lia.
+  unfold sel. assert ((- w <=? j) && (j <? w) = true) as -> by lia. cbn [bind]. rewrite Z.mod_small by lia.
+  unfold select. cbn [traverse]. unfold sig_bits. rewrite pick_map.
+  destruct (pick_ok (iota (Z.to_nat w) 0 1) j) as [x [Hp Hn]]; [unfold zlen; rewrite iota_length; lia|].
+  rewrite Hp. rewrite iota_nth in Hn by lia. inversion Hn; subst. cbn [bind]. f_equal. f_equal. f_equal. lia.
+Qed.
+
+Lemma target_sx_spec sigs t sbits : read_target sigs t = Ok sbits ->
+  exists cx bits', target_sx sigs t = Ok cx /\ xbits cx = Ok bits' /\ Forall2 (bit_readback sigs) sbits bits'.
+Proof.
+  intros Hr. unfold target_sx. rewrite Hr. cbn [bind]. pose proof (read_inside sigs t sbits Hr) as Hin. clear Hr.
+  assert (exists parts bits', traverse (sbit_sx sigs) sbits = Ok parts /\ cat_results (map xbits parts) = Ok bits' /\
+            Forall2 (bit_readback sigs) sbits bits') as [parts [bits' [Hp [Hb F]]]].
+  { induction sbits as [|[s j] l IH]; cbn [traverse]; [exists [], []; repeat split; constructor|].
+    destruct (Hin s j (or_introl eq_refl)) as [w [Hw Hj]]. destruct (index_of_some s sigs 0%N w Hw) as [idx [Hi Hl]].
+    unfold sbit_sx at 1. cbn [fst snd]. rewrite Hi, Hw. cbn [ofopt bind].
+    destruct IH as [parts [bits' [Hp [Hb F]]]]; [intros s' k' H'; apply Hin; right; exact H'|]. rewrite Hp. cbn [bind].
+    exists (XSlice (XSig idx w) (Idx j) :: parts), ((idx, j) :: bits'). split; [reflexivity|]. cbn [map cat_results].
+    rewrite xbits_onebit by exact Hj. cbn [bind]. rewrite Hb. cbn [bind app]. split; [reflexivity|].
+    constructor; [split; [reflexivity|exact Hl]|exact F]. }
+  rewrite Hp. cbn [bind]. exists (XConcat parts), bits'. split; [reflexivity|]. split; [exact Hb|exact F].
+Qed.
+
+Fixpoint pos_of (k : nat) (l : list nat) (a : nat) : option nat :=
+  match l with [] => None | j :: r => if Nat.eqb k j then Some a else pos_of k r (S a) end.
+
+Lemma pos_of_nth k : forall l a b, pos_of k l a = Some b -> exists c, b = (a + c)%nat /\ nth_error l c = Some k.
+Proof.
+  induction l as [|j r IH]; intros a b H; cbn [pos_of] in H; [discriminate|].
+  destruct (Nat.eqb k j) eqn:E.
+  - apply Nat.eqb_eq in E. subst. inversion H; subst. exists 0%nat. split; [lia|reflexivity].
+  - destruct (IH _ _ H) as [c [Hb Hc]]. exists (S c). split; [lia|exact Hc].
+Qed.
+
+Lemma nth_pos_of k : forall l a c, NoDup l -> nth_error l c = Some k -> pos_of k l a = Some (a + c)%nat.
+Proof.
+  induction l as [|j r IH]; intros a c Hnd Hc; [destruct c; discriminate|]. cbn [pos_of]. inversion Hnd as [|? ? Hj Hnd']; subst.
+  destruct c as [|c]; cbn [nth_error] in Hc.
+  - inversion Hc; subst. rewrite Nat.eqb_refl. f_equal. lia.
+  - destruct (Nat.eqb k j) eqn:E; [apply Nat.eqb_eq in E; subst; exfalso; apply Hj; eapply nth_error_In; exact Hc|].
+    rewrite (IH (S a) c Hnd' Hc). f_equal. lia.
+Qed.
+
+Section Readback.
+Variable xi : xinfo.
+Variable d : design.
+Hypothesis Hwfs : wfs d.
+Hypothesis Hna : no_arrays d.
+Hypothesis Hres : resolved_design d.
+Hypothesis Hxi : xinfo_ok xi d = true.
+Variable st : visit.
+Variable pms : list pmodule.
+Hypothesis Hinv : visit_inv xi d st.
+Hypothesis Htop : In (d_top d) (fst st).
+Hypothesis Hpms : Forall2 (mod_exported xi d) (fst st) pms.
+
+Let order := fst st.
+Let p := {| pk_domain := ""; pk_exts := snd st; pk_mods := pms |}.
+Let mu (k : nat) : option nat := pos_of k order 0.
+
+Lemma rb_pm_at a k : nth_error order a = Some k ->
+  exists m pm, nth_mod d k = Ok m /\ nth_error pms a = Some pm /\ export_module xi d m = Ok pm.
+Proof.
+  intros Ha. destruct (Forall2_nth _ _ _ Hpms a k Ha) as [pm [Hpm [m [Hm He]]]]. exists m, pm. auto.
+Qed.
+
+Lemma rb_names_nodup : NoDup (map pm_name pms).
+Proof.
+  apply NoDup_nth_error. intros i j Hi Hij. rewrite map_length in Hi. rewrite !nth_error_map in Hij.
+  destruct (nth_error pms i) as [pi|] eqn:Ei; [|apply nth_error_None in Ei; lia].
+  destruct (nth_error pms j) as [pj|] eqn:Ej; [|discriminate]. cbn in Hij. inversion Hij as [En].
+  destruct (Forall2_nth_rev _ _ _ Hpms i pi Ei) as [ki [Hki [mi [Hmi Hei]]]].
+  destruct (Forall2_nth_rev _ _ _ Hpms j pj Ej) as [kj [Hkj [mj [Hmj Hej]]]].
+  destruct (ex_module xi d Hwfs Hna Hres Hxi ki mi Hmi) as [pi' [Hpi' [Hni _]]].
+  destruct (ex_module xi d Hwfs Hna Hres Hxi kj mj Hmj) as [pj' [Hpj' [Hnj _]]].
+  rewrite Hei in Hpi'. inversion Hpi'; subst pi'. rewrite Hej in Hpj'. inversion Hpj'; subst pj'.
+  assert (ki = kj) as Ek by (eapply (ex_names_inj d Hwfs); try eassumption; congruence). subst kj.
+  pose proof (vi_nodup _ _ _ Hinv) as Hnd. rewrite NoDup_nth_error in Hnd. apply Hnd; [apply nth_error_Some; congruence|]. congruence.
+Qed.
+
+Lemma rb_find_local a k m : nth_error order a = Some k -> nth_mod d k = Ok m -> find_pmod pms (m_name m) 0 = Some a.
+Proof.
+  intros Ha Hm. destruct (rb_pm_at a k Ha) as [m' [pm [Hm' [Hpm He]]]]. rewrite Hm in Hm'. inversion Hm'; subst m'.
+  destruct (ex_module xi d Hwfs Hna Hres Hxi k m Hm) as [pm' [Hpm' [Hn _]]]. rewrite He in Hpm'. inversion Hpm'; subst pm'.
+  rewrite (find_pmod_spec pms (m_name m) 0 a pm rb_names_nodup Hpm Hn). reflexivity.
+Qed.
+
+(* the declaration an external reference resolves to *)
+Lemma rb_ext_lookup k m x dev ports v : In k order -> nth_mod d k = Ok m -> In x (m_insts m) -> i_of x = TDev dev ports ->
+  assoc dev (x_devs xi) = Some v ->
+  exists e, ext_lookup prims_ext p (dv_dom v) (dv_name v) = Some e /\ ext_ports e = ports /\ dev_string v = dev.
+Proof.
+  intros Hk Hm Hx Ho Hv. destruct (xinfo_dev xi d k m x dev ports Hxi Hm Hx Ho) as [v' [e [Hv' [Hds [_ [_ [Hdecl [Hports Hdn]]]]]]]].
+  rewrite Hv in Hv'. inversion Hv'; subst v'. unfold ext_lookup. cbn [pk_exts p].
+  destruct (find_ext (snd st) (dv_dom v) (dv_name v)) as [e2|] eqn:Ef.
+  - (* a declaration of the package under this (domain, name): it is this device's, up to its ports *)
+    assert (In e2 (snd st) /\ px_domain e2 = dv_dom v /\ px_name e2 = dv_name v) as [Hin [Hd2 Hn2]].
+    { clear - Ef. induction (snd st) as [|y l IH]; cbn [find_ext] in Ef; [discriminate|].
+      destruct (String.eqb (px_domain y) (dv_dom v) && String.eqb (px_name y) (dv_name v)) eqn:E.
+      - inversion Ef; subst. apply andb_prop in E. destruct E as [E1 E2]. apply String.eqb_eq in E1. apply String.eqb_eq in E2.
+        split; [left; reflexivity|auto].
+      - destruct (IH Ef) as [H1 H2]. split; [right; exact H1|exact H2]. }
+    destruct (vi_exts_from _ _ _ Hinv e2 Hin) as [k2 [m2 [x2 [dev2 [ports2 [v2 [Hm2 [Hx2 [Ho2 [Hv2 He2]]]]]]]]]].
+    destruct (xinfo_dev xi d k2 m2 x2 dev2 ports2 Hxi Hm2 Hx2 Ho2) as [v2' [e2' [Hv2' [_ [_ [_ [Hdecl2 [Hports2 Hdn2]]]]]]]].
+    rewrite Hv2 in Hv2'. inversion Hv2'; subst v2'. destruct (Hdn2 e2 He2) as [Hd2' Hn2'].
+    pose proof (xinfo_consistent xi d dev v dev2 v2 Hxi Hv Hv2 ltac:(congruence) ltac:(congruence)) as Hc.
+    rewrite He2 in Hc. destruct (dv_ext v) as [e1|] eqn:E1; [|destruct Hc].
+    exists e2. split; [reflexivity|]. split; [|exact Hds]. unfold dev_decl in Hdecl. rewrite E1 in Hdecl. inversion Hdecl; subst e1. congruence.
+  - destruct (dv_ext v) as [e1|] eqn:E1.
+    + (* its own declaration was collected by the traversal *)
+      exfalso. pose proof (vi_covers _ _ _ Hinv k m x dev ports v e1 Hk Hm Hx Ho Hv E1) as Hc. destruct (Hdn e1 eq_refl) as [Hd1 Hn1].
+      clear - Hc Ef Hd1 Hn1. unfold ext_mem in Hc. apply existsb_exists in Hc. destruct Hc as [y [Hy E]].
+      apply andb_prop in E. destruct E as [Ea Eb]. apply String.eqb_eq in Ea. apply String.eqb_eq in Eb.
+      induction (snd st) as [|z l IH]; [destruct Hy|]. cbn [find_ext] in Ef.
+      destruct (String.eqb (px_domain z) (dv_dom v) && String.eqb (px_name z) (dv_name v)) eqn:E; [discriminate|].
+      destruct Hy as [->|Hy]; [|apply IH; assumption].
+      rewrite <- Ea, <- Eb, Hd1, Hn1, !String.eqb_refl in E. discriminate.
+    + unfold dev_decl in Hdecl. rewrite E1 in Hdecl. exists e. auto.
+Qed.
+
+Definition conn_readback (m : module) (c c' : name * sx) : Prop :=
+  fst c' = fst c /\ exists bits bits', xbits (snd c) = Ok bits /\ xbits (snd c') = Ok bits' /\
+    Forall2 (bit_readback (psigs m)) (map (named (lname m)) bits) bits'.
+
+Definition inst_readback (m : module) (x x' : inst) : Prop :=
+  i_name x' = i_name x /\ i_n x' = 0 /\ tgt_rel mu (i_of x) (i_of x') /\ Forall2 (conn_readback m) (i_conns x) (i_conns x').
+
+Definition mod_readback (m m' : module) : Prop :=
+  m_name m' = m_name m /\ m_ports m' = m_ports m /\ m_sigs m' = m_sigs m /\ m_leaves m' = number_leaves (psigs m) 0%N /\
+  Forall2 (inst_readback m) (m_insts m) (m_insts m').
+
+Lemma rb_inst a k m x pi pm : nth_error order a = Some k -> nth_mod d k = Ok m -> In x (m_insts m) ->
+  inst_exported xi d m x pi -> pm_sigs pm = psigs m ->
+  exists x', pinst_inst prims_ext p pm pi = Ok x' /\ inst_readback m x x'.
+Proof.
+  intros Ha Hm Hx [Hex [Hname Fc]] Hsigs. unfold pinst_inst.
+  destruct (ex_inst xi d Hwfs Hna Hres Hxi k m x Hm Hx) as [pi' [Hpi' [_ [_ Href]]]]. rewrite Hex in Hpi'. inversion Hpi'; subst pi'.
+  assert (exists t, pinst_target prims_ext p pi = Ok t /\ tgt_rel mu (i_of x) t) as [t [Ht Hrel]].
+  { unfold pinst_target. destruct (i_of x) as [k'|dev ports] eqn:Eo.
+    - destruct Href as [mk [Hmk [Hr _]]]. rewrite Hr.
+      destruct (vi_closed _ _ _ Hinv a k Ha k') as [b [Hb Hnb]]; [exists m, x; auto|].
+      cbn [pk_mods p]. rewrite (rb_find_local b k' mk Hnb Hmk). cbn [ofopt bind]. exists (TMod b). split; [reflexivity|].
+      cbn [tgt_rel]. unfold mu. rewrite (nth_pos_of k' order 0 b (vi_nodup _ _ _ Hinv) Hnb). reflexivity.
+    - destruct Href as [v [Hv [Hr Hp]]]. rewrite Hr.
+      destruct (rb_ext_lookup k m x dev ports v (nth_error_In _ _ Ha) Hm Hx Eo Hv) as [e [He [Hports Hds]]].
+      unfold ext_lookup in He. rewrite He. cbn [ofopt bind]. eexists. split; [reflexivity|]. cbn [tgt_rel].
+      split; [rewrite Hp; symmetry; exact Hds|symmetry; exact Hports]. }
+  rewrite Ht. cbn [bind].
+  assert (exists cs, traverse (fun c : name * ptarget => x0 <- target_sx (pm_sigs pm) (snd c) ;; Ok (fst c, x0)) (pi_conns pi) = Ok cs /\
+            Forall2 (conn_readback m) (i_conns x) cs) as [cs [Hcs Fcs]].
+  { clear - Fc Hsigs. induction Fc as [|c pc l pl [Hfst [bits [Hb Hr]]] _ IH]; cbn [traverse]; [exists []; split; [reflexivity|constructor]|].
+    rewrite Hsigs. destruct (target_sx_spec _ _ _ Hr) as [cx [bits' [Hcx [Hb' F]]]]. rewrite Hcx. cbn [bind].
+    destruct IH as [cs [Hcs Fcs]]. rewrite Hsigs in Hcs. rewrite Hcs. cbn [bind]. exists ((fst pc, cx) :: cs). split; [reflexivity|].
+    constructor; [|exact Fcs]. split; [exact Hfst|]. exists bits, bits'. auto. }
+  rewrite Hcs. cbn [bind]. eexists. split; [reflexivity|]. split; [exact Hname|]. split; [reflexivity|]. split; [exact Hrel|exact Fcs].
+Qed.
+
+Lemma assoc_nodup_In {A} k (v : A) l : NoDup (map fst l) -> In (k, v) l -> assoc k l = Some v.
+Proof.
+  induction l as [|[k' v'] l IH]; cbn [map fst assoc]; intros Hnd Hin; [destruct Hin|]. inversion Hnd as [|? ? Hn Hnd']; subst.
+  destruct Hin as [E|Hin]; [inversion E; subst; rewrite String.eqb_refl; reflexivity|].
+  destruct (String.eqb k k') eqn:E; [|apply IH; assumption]. apply String.eqb_eq in E. subst. exfalso. apply Hn.
+  apply (in_map fst) in Hin. exact Hin.
+Qed.
+
+Lemma rb_module a k : nth_error order a = Some k ->
+  exists m pm m', nth_mod d k = Ok m /\ nth_error pms a = Some pm /\ pm_name pm = m_name m /\
+                  pmodule_module prims_ext p pm = Ok m' /\ mod_readback m m'.
+Proof.
+  intros Ha. destruct (rb_pm_at a k Ha) as [m [pm [Hm [Hpm He]]]]. exists m, pm.
+  destruct (ex_module xi d Hwfs Hna Hres Hxi k m Hm) as [pm' [Hpm' [Hn [Hsigs [Hports Fi]]]]]. rewrite He in Hpm'. inversion Hpm'; subst pm'.
+  pose proof (ex_module_ok d Hwfs k m Hm) as [_ [Hnd _]].
+  assert (NoDup (map fst (m_ports m))) as Hndp by (unfold mod_names in Hnd; apply (NoDup_app_l _ _ Hnd)).
+  unfold pmodule_module.
+  assert (exists is, traverse (pinst_inst prims_ext p pm) (pm_insts pm) = Ok is /\ Forall2 (inst_readback m) (m_insts m) is) as [is [His Fis]].
+  { assert (forall x pi, In x (m_insts m) -> inst_exported xi d m x pi -> exists x', pinst_inst prims_ext p pm pi = Ok x' /\ inst_readback m x x') as Hone.
+    { intros x pi Hx Hpi. eapply rb_inst; eassumption. }
+    clear - Fi Hone. induction Fi as [|x pi l pl Hxp _ IH]; cbn [traverse]; [exists []; split; [reflexivity|constructor]|].
+    destruct (Hone x pi (or_introl eq_refl) Hxp) as [x' [Hx' Hr]]. rewrite Hx'. cbn [bind].
+    destruct IH as [is [His Fis]]; [intros y py Hy; apply Hone; right; exact Hy|]. rewrite His. cbn [bind].
+    exists (x' :: is). split; [reflexivity|constructor; assumption]. }
+  rewrite His. cbn [bind].
+  assert (traverse (fun pd : name * Z => w <- ofopt EMissing (assoc (fst pd) (pm_sigs pm)) ;; Ok (fst pd, w)) (pm_ports pm) = Ok (m_ports m)) as Hpt.
+  { assert (pm_ports pm = map (fun pw : name * Z => (fst pw, port_dir xi m (fst pw))) (m_ports m)) as ->.
+    { unfold export_module in He. destruct (check _ _); cbn [bind] in He; [|discriminate]. destruct (traverse _ _); cbn [bind] in He; [|discriminate].
+      inversion He; reflexivity. }
+    rewrite Hsigs.
+    assert (forall pw, In pw (m_ports m) -> assoc (fst pw) (psigs m) = Some (snd pw)) as Hw.
+    { intros [n w] Hin. cbn [fst snd]. apply sig_width_psigs; [exact Hnd|]. unfold sig_width. rewrite (assoc_nodup_In n w _ Hndp Hin). reflexivity. }
+    clear - Hw. induction (m_ports m) as [|[n w] l IH]; cbn [map traverse]; [reflexivity|]. cbn [fst].
+    pose proof (Hw (n, w) (or_introl eq_refl)) as Q. cbn [fst snd] in Q. rewrite Q. cbn [ofopt bind snd]. rewrite IH; [reflexivity|]. intros pw Hpw. apply Hw. right. exact Hpw. }
+  rewrite Hpt. cbn [bind]. eexists. split; [exact Hm|]. split; [exact Hpm|]. split; [exact Hn|]. split; [reflexivity|].
+  split; [exact Hn|]. split; [reflexivity|]. split; [|split; [rewrite Hsigs; reflexivity|exact Fis]].
+  (* the signals that are not ports *)
+  cbn [m_sigs]. rewrite Hsigs. unfold psigs. rewrite filter_app.
+  assert (forall n, assoc n (pm_ports pm) = None <-> ~ In n (map fst (m_ports m))) as Hnone.
+  { intros n. rewrite <- Hports. split; [apply assoc_None_notin|apply assoc_notin_None]. }
+  rewrite filter_all.
+  2:{ intros [n w] Hin. cbn [fst]. assert (assoc n (pm_ports pm) = None) as ->; [|reflexivity]. apply Hnone. intros Hp.
+      unfold mod_names in Hnd. rewrite app_assoc in Hnd. apply NoDup_app_l in Hnd. apply (NoDup_app_disj _ _ n Hnd Hp). apply (in_map fst) in Hin. exact Hin. }
+  rewrite filter_none; [apply app_nil_r|].
+  intros [n w] Hin. cbn [fst]. destruct (assoc n (pm_ports pm)) eqn:E; [reflexivity|]. exfalso. apply Hnone in E. apply E.
+  apply (in_map fst) in Hin. exact Hin.
+Qed.
+
+Lemma Forall2_pick {A B} (R : A -> B -> Prop) l l' k a : Forall2 R l l' -> pick l k = Ok a -> exists b, pick l' k = Ok b /\ R a b.
+Proof.
+  intros F. unfold pick. destruct (k <? 0); [discriminate|]. destruct (nth_error l (Z.to_nat k)) as [a'|] eqn:E; [|discriminate].
+  intros H; inversion H; subst. destruct (Forall2_nth _ _ _ F _ _ E) as [b [Hb Hab]]. rewrite Hb. eauto.
+Qed.
+
+Lemma rb_design : exists tn pd atop, top_name d = Ok tn /\ design_of_pkg prims_ext p tn = Ok pd /\
+  d_top pd = atop /\ nth_error order atop = Some (d_top d) /\
+  Datatypes.length (d_mods pd) = Datatypes.length order /\
+  forall a k, nth_error order a = Some k -> exists m m', nth_mod d k = Ok m /\ nth_mod pd a = Ok m' /\ mod_readback m m'.
+Proof.
+  destruct (In_nth_error _ _ Htop) as [atop Hatop].
+  destruct (rb_module atop (d_top d) Hatop) as [mt [pmt [mt' [Hmt [Hpmt [Hnt _]]]]]].
+  exists (m_name mt). unfold top_name. rewrite Hmt. cbn [bind]. unfold design_of_pkg. cbn [pk_mods p].
+  destruct (traverse_total (pmodule_module prims_ext p) pms) as [ms Hms].
+  { intros pm Hin. apply In_nth_error in Hin. destruct Hin as [a Ha].
+    destruct (Forall2_nth_rev _ _ _ Hpms a pm Ha) as [k [Hk _]]. destruct (rb_module a k Hk) as [m [pm' [m' [_ [Hpm' [_ [Hr _]]]]]]].
+    rewrite Ha in Hpm'. inversion Hpm'; subst pm'. eauto. }
+  rewrite Hms. cbn [bind]. rewrite (rb_find_local atop (d_top d) mt Hatop Hmt). cbn [ofopt bind].
+  eexists. exists atop. split; [reflexivity|]. split; [reflexivity|]. cbn [d_top d_mods]. split; [reflexivity|]. split; [exact Hatop|].
+  apply traverse_Forall2 in Hms. split.
+  { rewrite <- (Forall2_length' _ _ _ Hms). symmetry. apply (Forall2_length' _ _ _ Hpms). }
+  intros a k Ha. destruct (rb_module a k Ha) as [m [pm [m' [Hm [Hpm [_ [Hr Hrb]]]]]]].
+  destruct (Forall2_nth _ _ _ Hms a pm Hpm) as [m2 [Hm2 Hr2]]. rewrite Hr in Hr2. inversion Hr2; subst m2.
+  exists m, m'. split; [exact Hm|]. split; [apply nth_mod_nth; exact Hm2|exact Hrb].
+Qed.
+
+Section RbSim.
+Variables (pd : design) (atop : nat).
+Hypothesis Hpd_top : d_top pd = atop.
+Hypothesis Hatop : nth_error order atop = Some (d_top d).
+Hypothesis Hpd : forall a k, nth_error order a = Some k -> exists m m', nth_mod d k = Ok m /\ nth_mod pd a = Ok m' /\ mod_readback m m'.
+
+Let MR (m m' : module) : Prop := exists a k, nth_error order a = Some k /\ nth_mod d k = Ok m /\ nth_mod pd a = Ok m' /\ mod_readback m m'.
+Let rho (m : module) (ie : pelem) : pelem := ie.
+
+Lemma rs_top : mu (d_top d) = Some (d_top pd).
+Proof. unfold mu. rewrite (nth_pos_of _ order 0 atop (vi_nodup _ _ _ Hinv) Hatop). rewrite Hpd_top. reflexivity. Qed.
+
+Lemma rs_desc : forall k k' m, mu k = Some k' -> nth_mod d k = Ok m -> exists m', nth_mod pd k' = Ok m' /\ MR m m'.
+Proof.
+  intros k k' m Hk Hm. unfold mu in Hk. destruct (pos_of_nth _ _ _ _ Hk) as [c [-> Hc]]. cbn [Nat.add].
+  destruct (Hpd c k Hc) as [m2 [m' [Hm2 [Hm' Hrb]]]]. rewrite Hm in Hm2. inversion Hm2; subst m2.
+  exists m'. split; [exact Hm'|]. exists c, k. auto.
+Qed.
+
+Lemma rs_ports : forall m m', MR m m' -> m_ports m = m_ports m'.
+Proof. intros m m' [a [k [_ [_ [_ [_ [H _]]]]]]]. symmetry. exact H. Qed.
+
+Lemma rs_sigs : forall m m' s w, MR m m' -> sig_width m s = Some w -> sig_width m' s = Some w.
+Proof. intros m m' s w [a [k [_ [_ [_ [_ [Hp [Hs _]]]]]]]] H. rewrite (sig_width_keep m m' s Hp Hs). exact H. Qed.
+
+Lemma rs_find m m' i x : MR m m' -> find_inst (m_insts m) i = Some x ->
+  exists x', find_inst (m_insts m') i = Some x' /\ inst_readback m x x'.
+Proof.
+  intros [a [k [_ [_ [_ [_ [_ [_ [_ F]]]]]]]]] Hf.
+  apply (find_inst_Forall2 (inst_readback m) _ _ i x F); [|exact Hf]. intros y y' [H _]. symmetry. exact H.
+Qed.
+
+Lemma rs_single_inst m m' i x : MR m m' -> find_inst (m_insts m) i = Some x -> i_n x <= 0.
+Proof.
+  intros [a [k [Ha [Hm _]]]] Hf. pose proof (Hna k m (proj1 (nth_mod_nth _ _ _) Hm)) as H. rewrite forallb_forall in H.
+  destruct (find_inst_In _ _ _ Hf) as [Hin _]. specialize (H x Hin). unfold single in H. lia.
+Qed.
+
+Lemma rs_inst : forall m m' i e x, MR m m' -> find_inst (m_insts m) i = Some x -> elem_ok x e = true ->
+  exists x', find_inst (m_insts m') (fst (rho m (i, e))) = Some x' /\ elem_ok x' (snd (rho m (i, e))) = true /\
+             tgt_rel mu (i_of x) (i_of x').
+Proof.
+  intros m m' i e x R Hf He. destruct (rs_find m m' i x R Hf) as [x' [Hf' [_ [Hn [Ht _]]]]]. exists x'. cbn [rho fst snd].
+  split; [exact Hf'|]. split; [|exact Ht]. pose proof (rs_single_inst m m' i x R Hf) as Hs. unfold elem_ok in *. rewrite Hn.
+  destruct (i_n x <=? 0) eqn:E; [exact He|lia].
+Qed.
+
+Lemma rs_single : forall m m' i x, MR m m' -> find_inst (m_insts m) i = Some x -> i_n x <= 0 -> snd (rho m (i, 0)) = 0.
+Proof. reflexivity. Qed.
+
+Lemma rs_inj : forall m m' i e x j f y, MR m m' -> find_inst (m_insts m) i = Some x -> elem_ok x e = true ->
+  find_inst (m_insts m) j = Some y -> elem_ok y f = true -> rho m (i, e) = rho m (j, f) -> i = j /\ e = f.
+Proof. intros m m' i e x0 j f y0 _ _ _ _ _ E. inversion E. auto. Qed.
+
+Lemma rs_port_width x x' port w : tgt_rel mu (i_of x) (i_of x') -> port_width d x port = Ok w -> port_width pd x' port = Ok w.
+Proof.
+  unfold port_width, target_ports. destruct (i_of x) as [k|dv ps], (i_of x') as [k'|dv' ps']; cbn [tgt_rel]; try tauto.
+  - intros Hk. destruct (nth_mod d k) as [mk|] eqn:Ek; cbn [bind]; [|discriminate].
+    destruct (rs_desc _ _ _ Hk Ek) as [mk' [Hk' R]]. rewrite Hk'. cbn [bind]. rewrite (rs_ports _ _ R). tauto.
+  - intros [_ ->]. tauto.
+Qed.
+
+Lemma rs_val : forall pth m i e x port k w t, vmod_at d pth = Ok m -> find_inst (m_insts m) i = Some x ->
+  elem_ok x e = true -> port_width d x port = Ok w -> 0 <= k < w -> local_tgt d m x e port k = Ok t -> ltgt_valid d m t.
+Proof.
+  intros pth m i e x0 port k w t Hm Hf He Hw Hk Ht.
+  destruct (wfs_module _ _ _ Hwfs Hm) as [km [Hkm Hok]]. destruct (find_inst_In _ _ _ Hf) as [Hxin _].
+  destruct (wfs_local_tgt d km m x0 e port k w Hok Hxin He Hw Hk) as [cx [bits [id [j [s [ws [_ [_ [_ [_ [_ [Hs [Hj Hlt]]]]]]]]]]]]].
+  rewrite Hlt in Ht. inversion Ht; subst t. cbn. eauto.
+Qed.
+
+Lemma rs_loc : forall m m' i e x x' port k w t, MR m m' ->
+  find_inst (m_insts m) i = Some x -> elem_ok x e = true ->
+  find_inst (m_insts m') (fst (rho m (i, e))) = Some x' ->
+  port_width d x port = Ok w -> 0 <= k < w ->
+  local_tgt d m x e port k = Ok t -> ltgt_valid d m t ->
+  local_tgt pd m' x' (snd (rho m (i, e))) port k = Ok (map_lt rho m t).
+Proof.
+  intros m m' i e x x' port k w t R Hf He Hf' Hw Hk Ht _. cbn [rho fst snd] in *.
+  destruct (rs_find m m' i x R Hf) as [x2 [Hf2 [_ [Hn [Htr Fc]]]]]. rewrite Hf' in Hf2. inversion Hf2; subst x2.
+  pose proof (rs_single_inst m m' i x R Hf) as Hsx.
+  destruct R as [a [km [Ha [Hm [Hm' [_ [_ [_ [Hlv _]]]]]]]]].
+  pose proof (ex_module_ok d Hwfs km m Hm) as Hok. destruct (find_inst_In _ _ _ Hf) as [Hxin _].
+  destruct (wfs_local_tgt d km m x e port k w Hok Hxin He Hw Hk) as [cx [bits [id [j [s [ws [Hac [Hb [Hc [Hpk [Hl [_ [_ Hlt]]]]]]]]]]]]].
+  rewrite Hlt in Ht. inversion Ht; subst t. cbn [map_lt].
+  assert (zlen bits = w) as Hlen by (destruct Hc as [Hc|[Hc _]]; [exact Hc|lia]).
+  unfold conn_index in Hpk. rewrite Hlen, Z.eqb_refl in Hpk.
+  destruct (assoc_Forall2 _ _ _ port cx Fc (fun c c' H => eq_sym (proj1 H)) Hac) as [cx' [Hac' [_ [bits0 [bits' [Hb0 [Hb' F]]]]]]]. cbn [snd] in *.
+  rewrite Hb in Hb0. inversion Hb0; subst bits0.
+  assert (pick (map (named (lname m)) bits) k = Ok (named (lname m) (id, j))) as Hpk2 by (rewrite pick_map, Hpk; reflexivity).
+  destruct (Forall2_pick _ _ _ k _ F Hpk2) as [[idx j'] [Hpk' [Hj' Hleaf]]]. cbn [fst snd named] in Hj', Hleaf. subst j'.
+  assert (lname m id = s) as Hs by (unfold lname, leaf_name; rewrite Hl; reflexivity). rewrite Hs in Hleaf.
+  assert (zlen bits' = w) as Hlen'.
+  { unfold zlen in *. rewrite <- (Forall2_length' _ _ _ F), map_length. exact Hlen. }
+  apply (local_tgt_intro pd m' x' e port k w cx' bits' idx j s Hac' Hb' (rs_port_width x x' port w Htr Hw) Hk).
+  - unfold elem_ok in *. rewrite Hn. destruct (i_n x <=? 0) eqn:E; [exact He|lia].
+  - left. exact Hlen'.
+  - unfold conn_index. rewrite Hlen', Z.eqb_refl. exact Hpk'.
+  - rewrite Hlv. exact Hleaf.
+Qed.
+
+Theorem readback_valid x : valid d x -> valid pd x.
+Proof.
+  intros H. rewrite <- (phi_id d rho (fun _ _ => eq_refl) x).
+  exact (valid_tr d pd mu rho MR rs_top rs_desc rs_ports rs_sigs rs_inst rs_single rs_inj rs_loc rs_val (wfs_step_total d Hwfs) x H).
+Qed.
+
+Theorem readback_same_net x y : valid d x -> valid d y -> (same_net d x y <-> same_net pd x y).
+Proof.
+  intros Hx Hy.
+  rewrite <- (phi_id d rho (fun _ _ => eq_refl) x) at 2. rewrite <- (phi_id d rho (fun _ _ => eq_refl) y) at 2.
+  exact (sim_same_net d pd mu rho MR rs_top rs_desc rs_ports rs_sigs rs_inst rs_single rs_inj rs_loc rs_val (wfs_step_total d Hwfs) x y Hx Hy).
+Qed.
+End RbSim.
+End Readback.
+
+(* ------------------------------------------------------------------------------------------ the export step, end to end *)
+Theorem export_sound xi d : wfs d -> no_arrays d -> resolved_design d -> xinfo_ok xi d = true ->
+  exists p tn pd, export_model xi d = Ok p /\ top_name d = Ok tn /\ design_of_pkg prims_ext p tn = Ok pd /\
+    (forall x, valid d x -> valid pd x) /\
+    (forall x y, valid d x -> valid d y -> (same_net d x y <-> same_net pd x y)).
+Proof.
+  intros Hwfs Hna Hres Hxi.
+  destruct (export_ok xi d Hwfs Hna Hres Hxi) as [st [pms [_ [Hinv [Htop [_ [Hpms Hex]]]]]]].
+  destruct (rb_design xi d Hwfs Hna Hres Hxi st pms Hinv Htop Hpms) as [tn [pd [atop [Htn [Hpd [Hpt [Hat [_ Hall]]]]]]]].
+  eexists. exists tn, pd. split; [exact Hex|]. split; [exact Htn|]. split; [exact Hpd|]. split.
+  - intros x. apply (readback_valid xi d Hwfs Hna st Hinv pd atop Hpt Hat Hall).
+  - intros x y. apply (readback_same_net xi d Hwfs Hna st Hinv pd atop Hpt Hat Hall).
+Qed.
